@@ -122,3 +122,10 @@ Proof.
   pose proof (AgreeAll.lookup_forallb (fun _ d => def_refs_in (other 5%N) d) prelude n d ltac:(vm_compute; reflexivity) L) as X.
   exact X.
 Qed.
+
+(* a choice spelled as a base rule plus "/=" increments, or as the plugs of a $socket, in document order,
+   is the choice of all of them: it matches when one of them does and fails when all of them do *)
+Theorem C08_increments : forall jm e incs base v,
+  (MatchT jm e (increments base incs) v <-> MatchT jm e base v \/ Exists (fun a => MatchT jm e a v) incs) /\
+  (FailT jm e (increments base incs) v <-> FailT jm e base v /\ Forall (fun a => FailT jm e a v) incs).
+Proof. intros. split; [apply increments_match|apply increments_fail]. Qed.
